@@ -277,8 +277,11 @@ def judge(parser, lopt, mopt, data, layout_name, fd_mode, acc):
                 T.diff(T.expected_with_omitted_tail(data, T.LOpt(True, True, False, None, True),
                                                     T.FD_MODES[fd_mode]), got) is None:
             d = "final-delimiter-adds-element"
-        elif T.diff(T.expected(data, first_wins=True), got) is None:
-            d = "map-repeated-key-keeps-first-value"
+        else:
+            fw = (T.expected_with_omitted_tail(data, lopt, T.FD_MODES[fd_mode], first_wins=True)
+                  if r.fd_ambiguous else T.expected(data, first_wins=True))
+            if fw != want and T.diff(fw, got) is None:
+                d = "map-repeated-key-keeps-first-value"
         return (d, feats, ("C05:" + d, "cleaned value differs from the data the text denotes", repr(got), repr(want)))
     if not r.fd_ambiguous:
         ko = T.key_order_violation(data, got)
